@@ -36,7 +36,10 @@ type c06Crash struct {
 }
 
 type c06Case struct {
-	Kind    string         `json:"kind"` // upload | label
+	Kind    string         `json:"kind"` // upload | label | commit
+	Splits  [][]world.File `json:"splits,omitempty"` // commit: files of the completed splits of the diamond
+	did     string
+	merged  []world.File
 	Prior   [][]world.File `json:"prior"`
 	Labels  [][2]interface{} `json:"labels"` // name, prior bundle index
 	Files   []world.File   `json:"files,omitempty"`
@@ -100,8 +103,31 @@ func sameFiles(a, b []world.File) bool {
 	return true
 }
 
+func c06Diamond(cs *c06Case, w *world.World, r *gen.Rand) {
+	cs.did = kid(r, 4000)
+	dd := model.NewDiamondDescriptor(model.DiamondID(cs.did))
+	if _, err := core.CreateDiamond("repo", w.Stores(), core.DiamondDescriptor(dd), core.DiamondLogger(world.Nop)); err != nil {
+		panic(err)
+	}
+	for i, files := range cs.Splits {
+		sd := model.NewSplitDescriptor(model.SplitID(fmt.Sprintf("split-%d", i)))
+		got, err := core.CreateSplit("repo", cs.did, w.Stores(), core.SplitDescriptor(sd), core.SplitLogger(world.Nop))
+		if err != nil {
+			panic(err)
+		}
+		s := core.NewSplit("repo", cs.did, w.Stores(), core.SplitDescriptor(&got), core.SplitConsumableStore(world.Consumable(files)), core.SplitLogger(world.Nop))
+		s.BundleDescriptor.LeafSize = 64
+		if err := s.Upload(); err != nil {
+			panic(err)
+		}
+	}
+}
+
 func c06Run(cs *c06Case, r *gen.Rand) {
 	base, ids, orig := c06Setup(cs, r)
+	if cs.Kind == "commit" {
+		c06Diamond(cs, base, r)
+	}
 	cs.before = whSnap(base)
 	cs.newID = kid(r, 5000)
 	cs.labelID = ""
@@ -116,6 +142,11 @@ func c06Run(cs *c06Case, r *gen.Rand) {
 			_, err := w.Upload("repo", world.Consumable(cs.Files), world.UploadOpts{LeafSize: 64, BundleID: cs.newID, Message: "new", Concurrency: 1})
 			return err
 		}
+		if cs.Kind == "commit" {
+			d := core.NewDiamond("repo", w.Stores(), core.DiamondDescriptor(model.NewDiamondDescriptor(model.DiamondID(cs.did))), core.DiamondLogger(world.Nop))
+			d.BundleDescriptor.LeafSize = 64
+			return d.Commit()
+		}
 		l := core.NewLabel(core.LabelDescriptor(model.NewLabelDescriptor(model.LabelName(cs.Name))))
 		b := core.NewBundle(core.Repo("repo"), core.ContextStores(w.Stores()), core.BundleID(cs.labelID), core.Logger(world.Nop))
 		return l.UploadDescriptor(context.Background(), b)
@@ -128,6 +159,21 @@ func c06Run(cs *c06Case, r *gen.Rand) {
 		panic(fmt.Sprint("uninterrupted operation failed: ", err))
 	}
 	total := cr.Count()
+	if cs.Kind == "commit" { // what the committed bundle must hold
+		probe.WrapMeta, probe.WrapVMeta, probe.WrapBlob = nil, nil, nil
+		bs, err := core.ListBundles("repo", probe.Stores())
+		if err != nil || len(bs) != len(ids)+1 {
+			panic("uninterrupted commit did not add one bundle")
+		}
+		for _, b := range bs {
+			if _, old := orig[b.ID]; !old {
+				cs.merged, err = probe.Download("repo", b.ID, 0, nil)
+				if err != nil {
+					panic(err)
+				}
+			}
+		}
+	}
 	if cs.Kind == "upload" {
 		probe.WrapMeta, probe.WrapVMeta, probe.WrapBlob = nil, nil, nil
 		es, err := probe.Entries("repo", cs.newID)
@@ -210,6 +256,17 @@ func c06Run(cs *c06Case, r *gen.Rand) {
 				got, e := w.Download("repo", cs.newID, 0, nil)
 				co.NewRead = e == nil && sameFiles(got, cs.Files)
 			}
+			if cs.Kind == "commit" { // every bundle that is listed and was not there before reads back completely
+				co.NewRead = true
+				for _, id := range co.Listed {
+					if _, old := orig[id]; !old {
+						got, e := w.Download("repo", id, 0, nil)
+						if e != nil || !sameFiles(got, cs.merged) {
+							co.NewRead = false
+						}
+					}
+				}
+			}
 			// retry under the same bundle id with other content of the same shape: either refused and still
 			// invisible, or visible with the retried content - never the interrupted run's
 			co.SameIDOk = true
@@ -260,6 +317,9 @@ func wrapAll(w *world.World, c *memstore.Crash) {
 
 func c06Coq(cs *c06Case) string {
 	kind := fmt.Sprintf("AUpload \"repo\" %s %s", S(cs.newID), entriesCoq(cs.entries))
+	if cs.Kind == "commit" {
+		kind = "ACommit \"repo\""
+	}
 	if cs.Kind == "label" {
 		kind = fmt.Sprintf("ALabel \"repo\" %s %s", S(cs.Name), S(cs.labelID))
 	}
@@ -292,7 +352,7 @@ func init() {
 		c.CaseTy = "acase"
 		c.Report = "report"
 		c.PerFile = 2
-		c.Rule = "histories of 0..3 committed bundles and labels, then a bundle upload or a label assignment interrupted at every mutating store call (blob and metadata stores; before and after the call lands) - all calls for small trees, every metadata write plus sampled blob writes for a 1001-file tree with two file lists; after each crash a restarted process lists bundles, resolves the latest bundle, lists labels, downloads every previously committed bundle and the new one, retries the operation, and retries an interrupted upload under the same bundle id with other content of the same shape; label assignments also move existing labels; non-trivial = crash point at which the operation had written at least one object, distinct by case and crash point"
+		c.Rule = "histories of 0..3 committed bundles and labels, then a bundle upload, a label assignment or the commit of a diamond with one or two completed splits interrupted at every mutating store call (blob and metadata stores; before and after the call lands) - all calls for small trees, every metadata write plus sampled blob writes for a 1001-file tree with two file lists; after each crash a restarted process lists bundles, resolves the latest bundle, lists labels, downloads every previously committed bundle and the new one, retries the operation, and retries an interrupted upload under the same bundle id with other content of the same shape; label assignments also move existing labels; non-trivial = crash point at which the operation had written at least one object, distinct by case and crash point"
 		emit := func(cs *c06Case) {
 			n := 0
 			for _, co := range cs.Crashes {
@@ -324,7 +384,12 @@ func init() {
 		}
 		for i := 0; i < n; i++ {
 			cs := &c06Case{Kind: "upload"}
-			if i%3 == 2 {
+			if i%5 == 4 {
+				cs.Kind = "commit"
+				for j := 0; j < r.Range(1, 2); j++ {
+					cs.Splits = append(cs.Splits, whTree(r, r.Range(1, 3)))
+				}
+			} else if i%3 == 2 {
 				cs.Kind = "label"
 				cs.Name = []string{"v1", "latest", "rel-1"}[r.Intn(3)]
 			}
